@@ -156,7 +156,7 @@ func TestCheck(t *testing.T) {
 	defer runtime.GOMAXPROCS(runtime.GOMAXPROCS(0))
 	gspec.EnableInterruptHook()
 	ctx := context.Background()
-	n := int64(cfg.Pick(60, 500))
+	n := int64(cfg.Pick(180, 500))
 	rep.Require("operations_checked", 500)
 	rep.Cases(n, func(idx int64, rng *mon.Rand) {
 		mode := gspec.Mode(idx % 3)
